@@ -217,6 +217,9 @@ BREAKING = [
     ('c15-class-ctx-no-line', ['C15'], [(A, 'def log_constant(pass_name, item, value):', 'class LineErrors:\n    """re-raise the given low-level errors of the enclosed block as AssemblerErrors of a line"""\n\n    def __init__(self, line, *types):\n        self.line = line\n        self.types = types\n\n    def __enter__(self):\n        return self\n\n    def __exit__(self, exc_type, exc, tb):\n        if exc_type is not None and issubclass(exc_type, self.types):\n            raise AssemblerError(str(exc), None) from exc\n        return False\n\n\ndef log_constant(pass_name, item, value):'), (A, '        try:\n            # atomic insts expect aq and rl as kwargs\n            if isinstance(item, ATypeInstruction) or isinstance(item, ALTypeInstruction):\n                *args, aq, rl = item.args()\n                code = encode_func(*args, aq=aq, rl=rl)\n            else:\n                args = item.args()\n                code = encode_func(*args)\n        except ValueError as e:\n            raise AssemblerError(str(e), item.line)\n', '        with LineErrors(item.line, ValueError):\n            # atomic insts expect aq and rl as kwargs\n            if isinstance(item, (ATypeInstruction, ALTypeInstruction)):\n                *args, aq, rl = item.args()\n                code = encode_func(*args, aq=aq, rl=rl)\n            else:\n                code = encode_func(*item.args())\n')]),
     ('c15-decorator-wrong-type', ['C15'], [(A, 'def resolve_instructions(items):', 'def converts_value_errors(fn):\n    def wrapper(item):\n        try:\n            return fn(item)\n        except KeyError as e:\n            raise AssemblerError(str(e), item.line)\n    return wrapper\n\n\n@converts_value_errors\ndef encode_item(item):\n    encode_func = INSTRUCTIONS[item.name]\n    if isinstance(item, (ATypeInstruction, ALTypeInstruction)):\n        *args, aq, rl = item.args()\n        return encode_func(*args, aq=aq, rl=rl)\n    return encode_func(*item.args())\n\n\ndef resolve_instructions(items):'), (A, '        encode_func = INSTRUCTIONS[item.name]\n        try:\n            # atomic insts expect aq and rl as kwargs\n            if isinstance(item, ATypeInstruction) or isinstance(item, ALTypeInstruction):\n                *args, aq, rl = item.args()\n                code = encode_func(*args, aq=aq, rl=rl)\n            else:\n                args = item.args()\n                code = encode_func(*args)\n        except ValueError as e:\n            raise AssemblerError(str(e), item.line)\n', '        code = encode_item(item)\n')]),
     ('c15-registry-misses-pass', ['C15'], [(A, 'def resolve_strings(items):', 'LATE_PASSES = []\n\n\ndef late_pass(fn):\n    LATE_PASSES.append(fn)\n    return fn\n\n\n@late_pass\ndef resolve_strings(items):'), (A, 'def resolve_sequences(items):', '@late_pass\ndef resolve_sequences(items):'), (A, 'def transform_shorthand_packs(items):', '@late_pass\ndef transform_shorthand_packs(items):'), (A, 'def resolve_include_bytes(items):', '@late_pass\ndef resolve_include_bytes(items):'), (A, '    items = resolve_strings(items)\n    items = resolve_sequences(items)\n    items = transform_shorthand_packs(items)\n    items = resolve_packs(items)\n    items = resolve_include_bytes(items)\n', '    for late in LATE_PASSES:\n        items = late(items)\n')]),
+    ('c15-while-index-zero-based', ['C15'], [(A, '    for i, raw_line in enumerate(source.splitlines(), start=1):\n', '    rows = source.splitlines()\n    i = -1\n    while i + 1 < len(rows):\n        i += 1\n        raw_line = rows[i]\n')]),
+    ('c15-to-bytes-overflow', ['C15'], [(A, '                value = struct.pack(fmt, value)\n', "                value = value.to_bytes(struct.calcsize(fmt), 'little', signed=value < 0)\n")]),
+    ('c15-bytearray-append-user-int', ['C15'], [(A, '            try:\n                value = struct.pack(fmt, value)\n            except struct.error as e:\n                raise AssemblerError(\'value {} does not fit "{}": {}\'.format(value, item.name, e), item.line)\n            data.extend(value)', '            if item.name == \'bytes\':\n                data.append(value)\n                continue\n            try:\n                value = struct.pack(fmt, value)\n            except struct.error as e:\n                raise AssemblerError(\'value {} does not fit "{}": {}\'.format(value, item.name, e), item.line)\n            data.extend(value)')]),
     ('c15-reduce-misses-pass', ['C15'], [(A, '    items = resolve_strings(items)\n    items = resolve_sequences(items)\n    items = transform_shorthand_packs(items)\n    items = resolve_packs(items)\n    items = resolve_include_bytes(items)\n', '    import functools\n    late = [resolve_strings, resolve_sequences, transform_shorthand_packs, resolve_include_bytes]\n    items = functools.reduce(lambda acc, step: step(acc), late, items)\n')]),
     ('c15-callable-pass-no-line', ['C15'], [(A, "def resolve_strings(items):\n    new_items = []\n    for item in items:\n        if not isinstance(item, String):\n            new_items.append(item)\n            continue\n\n        blob = Blob(item.line, item.value.encode('utf-8'))\n        new_items.append(blob)\n\n        log_conversion('resolve_strings', item, blob)\n\n    return new_items\n", "class StringResolver:\n    def __init__(self, encoding):\n        self.encoding = encoding\n\n    def __call__(self, items):\n        new_items = []\n        for item in items:\n            if isinstance(item, String):\n                blob = Blob(None, item.value.encode(self.encoding))\n                log_conversion('resolve_strings', item, blob)\n                new_items.append(blob)\n            else:\n                new_items.append(item)\n        return new_items\n\n\nresolve_strings = StringResolver('utf-8')\n")]),
     ('c15-located-wrong-type', ['C15'], [(A, 'def resolve_instructions(items):', 'def located(fn, line, *args, **kwargs):\n    try:\n        return fn(*args, **kwargs)\n    except KeyError as e:\n        raise AssemblerError(str(e), line)\n\n\ndef resolve_instructions(items):'), (A, '        try:\n            # atomic insts expect aq and rl as kwargs\n            if isinstance(item, ATypeInstruction) or isinstance(item, ALTypeInstruction):\n                *args, aq, rl = item.args()\n                code = encode_func(*args, aq=aq, rl=rl)\n            else:\n                args = item.args()\n                code = encode_func(*args)\n        except ValueError as e:\n            raise AssemblerError(str(e), item.line)\n', '        # atomic insts expect aq and rl as kwargs\n        if isinstance(item, (ATypeInstruction, ALTypeInstruction)):\n            *args, aq, rl = item.args()\n            code = located(encode_func, item.line, *args, aq=aq, rl=rl)\n        else:\n            code = located(encode_func, item.line, *item.args())\n')]),
@@ -381,6 +384,12 @@ PRESERVING = [
     ('p15-pass-registry', ['C15'], [(A, 'def resolve_strings(items):', 'LATE_PASSES = []\n\n\ndef late_pass(fn):\n    LATE_PASSES.append(fn)\n    return fn\n\n\n@late_pass\ndef resolve_strings(items):'), (A, 'def resolve_sequences(items):', '@late_pass\ndef resolve_sequences(items):'), (A, 'def transform_shorthand_packs(items):', '@late_pass\ndef transform_shorthand_packs(items):'), (A, 'def resolve_packs(items):', '@late_pass\ndef resolve_packs(items):'), (A, 'def resolve_include_bytes(items):', '@late_pass\ndef resolve_include_bytes(items):'), (A, '    items = resolve_strings(items)\n    items = resolve_sequences(items)\n    items = transform_shorthand_packs(items)\n    items = resolve_packs(items)\n    items = resolve_include_bytes(items)\n', '    for late in LATE_PASSES:\n        items = late(items)\n')]),
     ('p15-line-dataclass', ['C15'], [(A, 'class Line:\n\n    def __init__(self, file, number, contents):\n        self.file = file\n        self.number = number\n        self.contents = contents\n        # resolved path of the file named by an include_bytes line (set by the reader)\n        self.include_path = None\n', 'import dataclasses\nimport typing\n\n\n@dataclasses.dataclass\nclass Line:\n    file: str\n    number: int\n    contents: str\n    # resolved path of the file named by an include_bytes line (set by the reader)\n    include_path: typing.Optional[str] = None\n')]),
     ('p15-linetokens-namedtuple', ['C15'], [(A, 'class LineTokens:\n\n    def __init__(self, line, tokens):\n        self.line = line\n        self.tokens = tokens\n', 'import typing\n\n\nclass LineTokens(typing.NamedTuple):\n    line: Line\n    tokens: list\n'), (A, '    line = line_tokens.line\n    tokens = line_tokens.tokens\n', '    line, tokens = line_tokens\n')]),
+    ('p15-size-percent-format', ['C15'], [(A, "            line.contents = '{} {}'.format(raw_line, size)", "            line.contents = '%s %d' % (raw_line, size)")]),
+    ('p15-while-index', ['C15'], [(A, '    for i, raw_line in enumerate(source.splitlines(), start=1):\n', '    rows = source.splitlines()\n    i = 0\n    while i < len(rows):\n        raw_line = rows[i]\n        i += 1\n')]),
+    ('p15-range-index', ['C15'], [(A, '    for i, raw_line in enumerate(source.splitlines(), start=1):\n', '    rows = source.splitlines()\n    for pos in range(len(rows)):\n        raw_line = rows[pos]\n        i = pos + 1\n')]),
+    ('p15-to-bytes-covered', ['C15'], [(A, '                value = struct.pack(fmt, value)\n', "                value = value.to_bytes(struct.calcsize(fmt), 'little', signed=value < 0)\n"), (A, '            except struct.error as e:\n                raise AssemblerError(\'value {} does not fit "{}": {}\'.format(value, item.name, e), item.line)\n            data.extend(value)', '            except (struct.error, OverflowError) as e:\n                raise AssemblerError(\'value {} does not fit "{}": {}\'.format(value, item.name, e), item.line)\n            data.extend(value)')]),
+    ('p15-reader-test-helper', ['C15'], [(A, 'def read_lines(path_or_source, *, include=False, include_dirs=None):', "def has_directive(raw_line, keyword):\n    return raw_line.lower().startswith(keyword + ' ')\n\n\ndef read_lines(path_or_source, *, include=False, include_dirs=None):"), (A, "        elif raw_line.lower().startswith('include_bytes '):\n", "        elif has_directive(raw_line, 'include_bytes'):\n")]),
+    ('p15-reader-annotate-helper', ['C15'], [(A, 'def read_lines(path_or_source, *, include=False, include_dirs=None):', "def annotate_size(line, size):\n    line.contents = '{} {}'.format(line.contents, size)\n\n\ndef read_lines(path_or_source, *, include=False, include_dirs=None):"), (A, "            line.contents = '{} {}'.format(raw_line, size)", '            annotate_size(line, size)')]),
     ('p15-reduce-driver', ['C15'], [(A, '    items = resolve_strings(items)\n    items = resolve_sequences(items)\n    items = transform_shorthand_packs(items)\n    items = resolve_packs(items)\n    items = resolve_include_bytes(items)\n', '    import functools\n    late = [resolve_strings, resolve_sequences, transform_shorthand_packs, resolve_packs, resolve_include_bytes]\n    items = functools.reduce(lambda acc, step: step(acc), late, items)\n')]),
     ('p15-callable-pass-object', ['C15'], [(A, "def resolve_strings(items):\n    new_items = []\n    for item in items:\n        if not isinstance(item, String):\n            new_items.append(item)\n            continue\n\n        blob = Blob(item.line, item.value.encode('utf-8'))\n        new_items.append(blob)\n\n        log_conversion('resolve_strings', item, blob)\n\n    return new_items\n", "class StringResolver:\n    def __init__(self, encoding):\n        self.encoding = encoding\n\n    def __call__(self, items):\n        new_items = []\n        for item in items:\n            if isinstance(item, String):\n                blob = Blob(item.line, item.value.encode(self.encoding))\n                log_conversion('resolve_strings', item, blob)\n                new_items.append(blob)\n            else:\n                new_items.append(item)\n        return new_items\n\n\nresolve_strings = StringResolver('utf-8')\n")]),
     ('p15-located-helper', ['C15'], [(A, 'def resolve_instructions(items):', 'def located(fn, line, *args, **kwargs):\n    try:\n        return fn(*args, **kwargs)\n    except ValueError as e:\n        raise AssemblerError(str(e), line)\n\n\ndef resolve_instructions(items):'), (A, '        try:\n            # atomic insts expect aq and rl as kwargs\n            if isinstance(item, ATypeInstruction) or isinstance(item, ALTypeInstruction):\n                *args, aq, rl = item.args()\n                code = encode_func(*args, aq=aq, rl=rl)\n            else:\n                args = item.args()\n                code = encode_func(*args)\n        except ValueError as e:\n            raise AssemblerError(str(e), item.line)\n', '        # atomic insts expect aq and rl as kwargs\n        if isinstance(item, (ATypeInstruction, ALTypeInstruction)):\n            *args, aq, rl = item.args()\n            code = located(encode_func, item.line, *args, aq=aq, rl=rl)\n        else:\n            code = located(encode_func, item.line, *item.args())\n')]),
@@ -433,6 +442,8 @@ PRESERVING = [
 # edits that move the code outside what the analysis can decide: the check must end with ANALYSIS-ERROR (exit 2),
 # neither pass nor claim a violation
 UNDECIDED = [
+    ('c15-size-in-the-middle', ['C15'], [(A, "            line.contents = '{} {}'.format(raw_line, size)", "            line.contents = '{} {} bytes'.format(raw_line, size)")]),
+    ('c15-size-token-via-field', ['C15'], [(A, '        _, path, size = tokens\n        size = int(size, base=0)\n', '        operands = {}\n        for position, word in enumerate(tokens):\n            operands[position] = word\n        size = int(operands[2], base=0)\n')]),
     ('c09-align-mod', ['C09'], [(A, "padding = self.alignment - (position % self.alignment)", "padding = self.alignment - (position % (self.alignment + 1))")]),
     ('c17-labels-filtered', ['C17'], [(A, "        lines = ['{} 0x{:08x}\\n'.format(k, v) for k, v in labels.items()]", "        lines = ['{} 0x{:08x}\\n'.format(k, v) for k, v in labels.items() if not k.startswith('_')]")]),
     ('c17-chunked-write', ['C17'], [(A, "        out_bin.write(binary)", "        for start in range(0, len(binary), 4096):\n            out_bin.write(binary[start:start + 4096])")]),
